@@ -159,7 +159,13 @@ func (r *crashRun) checkUtxo(n *node, sc *scenario, z *zRef, H uint64, phase str
 			}
 		}
 		if lost > 0 {
-			behind = append(behind, fmt.Sprintf("%d of the %d key images spent by blocks <= %d are not marked spent (those hidden outputs can be spent again)", lost, len(u.spent), H))
+			// a key of its own: the start-up step that re-saves the key images of
+			// the last block (d76fc0a) closes this window, so on the repaired tree
+			// it must never be hit and must not hide behind the known
+			// utxo-store-behind finding (seeded change C13-7)
+			if r.violate(sc, "spent-set-behind", "%s: block store, state and status are at height %d but in the %s %d of the %d key images spent by blocks <= %d are not marked spent (those hidden outputs can be spent again)", phase, H, v.name, lost, len(u.spent), H) {
+				return false
+			}
 		}
 		if len(behind) > 0 {
 			if r.violate(sc, "utxo-store-behind", "%s: block store, state and status are at height %d but the %s is not: %s", phase, H, v.name, strings.Join(behind, "; ")) {
